@@ -35,9 +35,24 @@ def run_corr(ctx, binp, test, stream, n, extra_env=None, timeout=900):
     impl = open(implf).read().splitlines() if os.path.exists(implf) else []
     oracle_fail = [l for l in out.splitlines() if l.startswith("ORACLE-FAIL")]
     ok = (rc == 0) or bool(oracle_fail)  # an oracle failure makes the go test fail: that is a result, not a breakdown
+    pan = go_panic(out)
+    if pan and not oracle_fail:
+        # the real code panicked under a generated, valid use: that is a failure with an input (the run)
+        ctx.violation("panic:" + stream, "PANIC in the code under test during %s: %s" % (test, pan),
+                      "harness %s seed %s N %s\n%s\n" % (test, ctx.seed, n, out[-3000:]))
+        ok = True
     if not ok:
         ctx.log("harness %s failed (rc=%s):\n%s" % (test, rc, out[-2500:]))
     return ok, ops, impl, out
+
+
+def go_panic(out):
+    """First line of a Go panic in a test binary's output plus the innermost nsq frames, or None."""
+    m = re.search(r"^panic: (.*)$", out, re.M)
+    if not m or "test timed out" in m.group(1):
+        return None
+    frames = [l.strip() for l in out[m.end():].splitlines() if "nsqio/nsq" in l and "zz_verif" not in l and "(" in l]
+    return (m.group(1) + " at " + " <- ".join(frames[:4]))[:500]
 
 
 def model_of(ctx, stream):
